@@ -196,9 +196,13 @@ def check_case(case):
     def key(sym):
         return "C03|%s|%s|%s|%s" % (entry, case["desc"], case["input"], sym)
 
-    desc_kw = dict(var_names=vn, var_dims=vd, var_coords=vc,
-                   constants=consts or None, resources=res or None,
-                   attrs=attrs or None)
+    import copy
+
+    # (private copies: the library must not share mutable objects with the
+    # oracle)
+    desc_kw = copy.deepcopy(dict(
+        var_names=vn, var_dims=vd, var_coords=vc, constants=consts or None,
+        resources=res or None, attrs=attrs or None))
     to_df = entry in ("to_df", "runner_df")
     last = None
     try:
@@ -347,7 +351,12 @@ def check_case(case):
         npts = 0
         for labels in itertools.product(*[coords[a] for a in dim_order]):
             s = dict(zip(dim_order, labels))
-            cell = ds[var].sel(s).values
+            try:
+                cell = ds[var].sel(s).values
+            except KeyError:
+                vio.append((key("label-missing"), "%s has no entry labelled "
+                            "%r" % (var, s)))
+                break
             if xfn.enc(dict(s, **consts, **res)) in full:
                 w = np.asarray(get(value(s)))
                 if cell.shape != w.shape or not np.array_equal(cell, w):
